@@ -442,16 +442,25 @@ func elemPool(rng *rand.Rand, n int, asciiOnly bool) [][]byte {
 			out = append(out, b)
 		}
 	}
+	// special shapes first, in random order (the pool may be smaller than their number)
+	var special [][]byte
 	if !asciiOnly {
-		add([]byte{})
-		add([]byte{0})
-		add([]byte{0xff, 0xfe, 0x00, 0x80})
-		add([]byte("\xc3\x28 bad utf8"))
-		add(randBytes(rng, 15))
-		add(randBytes(rng, 16))
-		add(randBytes(rng, 17))
-		add(randBytes(rng, 33))
-		add(randBytes(rng, 64))
+		special = [][]byte{{}, {0}, {0xff, 0xfe, 0x00, 0x80}, []byte("\xc3\x28 bad utf8"),
+			randBytes(rng, 15), randBytes(rng, 16), randBytes(rng, 17), randBytes(rng, 33), randBytes(rng, 64),
+			// longer than any fixed-size scratch buffer an implementation might copy keys into
+			randBytes(rng, 127), randBytes(rng, 128), randBytes(rng, 129), randBytes(rng, 300), randBytes(rng, 5000),
+			[]byte("12345"), []byte("-1"), []byte("1e3"), []byte("c++ %41/\"q\"\\ x,y;z:_")}
+	} else {
+		// printable ASCII that percent-, URL-, JSON- or shell-style escaping treats specially
+		// (no blank, comma, colon, semicolon, underscore: the trace format of the names)
+		special = [][]byte{[]byte("c++"), []byte("%41%2B"), []byte("a/b\\c"), []byte("\"q\""), []byte("x=1&y=2"), []byte("<k>")}
+	}
+	rng.Shuffle(len(special), func(i, j int) { special[i], special[j] = special[j], special[i] })
+	for _, sp := range special {
+		if len(out) >= n-3 && len(out) >= 2 {
+			break
+		}
+		add(sp)
 	}
 	add([]byte("a"))
 	add([]byte("0123456789abcdef"))
